@@ -202,7 +202,7 @@ func runBlockCase(c *vf.Ctx, env *blockEnv, bc *blockCase) {
 	}
 	c.Distinct("block-mode/"+bc.Typ, mode)
 	reached("block-mode/" + bc.Typ + "/" + mode)
-	if bc.Idx < 10 && bc.Idx%5 == 2 {
+	if bc.Cfg == baseCfg && (bc.Idx == 2 || bc.Idx == 10) {
 		c.Sample(map[string]any{"part": "block", "cfg": bc.Cfg, "type": bc.Typ, "generator": bc.Gen, "values": bc.N, "encoded_bytes": len(body), "mode": mode})
 	}
 	c.Count("block-mode/"+bc.Typ+"/"+mode, 1)
